@@ -22,9 +22,11 @@ Proof. exact ledger_balanced. Qed.
 Theorem C10_decode_invariant : forall fail s σ, inv σ (fst (dec fail s σ)) (snd (dec fail s σ)).
 Proof. exact dec_inv. Qed.
 
-(* the known finding F6: the in-place decode generated for a repr(transparent) struct with
-   more than one field has no guard between fields - modelled as a pair whose second
-   component's failure does not release the first: the ledger is NOT balanced *)
+(* the repaired defect F6 (fix: 5c98763): the in-place decode the derive generated for a
+   repr(transparent) struct with more than one field had no guard between fields - modelled as a
+   pair whose second component's failure does not release the first: such a composition is NOT
+   balanced, which is why the derive must not use it (the harness keeps the witness as a
+   regression case) *)
 Definition unguarded_pair (fail : nat) (a b : shape) : list lev :=
   match dec fail a (mkSt 0 0 0 []) with
   | (None, σ1) => evs σ1
